@@ -75,6 +75,18 @@ def _pcm_lemma(job):
           # C cast: truncation toward zero (value range checked by the lemma)
           return fpk.V(z3.fpToSBV(fpk.RTZ, x.t, fpk.BV), 'int')
         raise fpk.UnsupportedConstruct('astype(%s)' % target)
+      # np.clip / np.minimum / np.maximum on float samples (element-wise)
+      if isinstance(n, ast.Call) and ast.unparse(n.func) in (
+          'np.clip', 'np.minimum', 'np.maximum') and not n.keywords:
+        args = [fpk.to_fp(self.expr(a, env), self.sort) for a in n.args]
+        name = ast.unparse(n.func)
+        if name == 'np.clip' and len(args) == 3:
+          return fpk.V(z3.fpMin(z3.fpMax(args[0], args[1]), args[2]),
+                       'fp')
+        if name == 'np.minimum' and len(args) == 2:
+          return fpk.V(z3.fpMin(args[0], args[1]), 'fp')
+        if name == 'np.maximum' and len(args) == 2:
+          return fpk.V(z3.fpMax(args[0], args[1]), 'fp')
       return fpk.Translator.expr(self, n, env)
 
     def block(self, stmts, env, guard=None):
